@@ -210,7 +210,21 @@ class Scratch:
         self.close()
 
 
+def unmount_below(path):
+    """Lazily unmounts every mount point at or below `path` (deepest first): trees may contain tmpfs instances."""
+    path = u(path)
+    try:
+        with open("/proc/self/mounts", "r", errors="surrogateescape") as f:
+            mps = [l.split()[1].replace("\\040", " ") for l in f]
+    except OSError:
+        return
+    for mp in sorted(set(m for m in mps if m == path or m.startswith(path.rstrip("/") + "/")), key=len, reverse=True):
+        subprocess.run(["umount", "-l", mp], stdout=subprocess.DEVNULL, stderr=subprocess.DEVNULL)
+
+
 def rmtree(path):
+    unmount_below(path)
+
     def onerr(func, p, exc):
         try:
             os.chmod(os.path.dirname(p), 0o700)
@@ -233,14 +247,16 @@ def cleanup_stale_scratch():
         except OSError:
             continue
         for n in names:
-            m = re.match(r"fcv\.(\d+)\.\d+$", n)
+            # scratch roots fcv.<pid>.<n>, and loop images / mount points fcv.<pid>.<name>[.img] of workers that were
+            # killed before they could clean up
+            m = re.match(r"fcv\.(\d+)\.[A-Za-z0-9_]+(\.img)?$", n)
             if m and not os.path.exists("/proc/%s" % m.group(1)):
                 rmtree(os.path.join(base, n))
 
 
 def make_tree(root, entries):
     """Materialises a tree spec below `root` (bytes or str).
-    entry: {"p": relpath, "k": "file"|"dir"|"hard"|"sym", "c": content spec, "to": target,
+    entry: {"p": relpath, "k": "file"|"dir"|"hard"|"sym"|"sparse"|"tmpfs", "c": content spec, "to": target,
             "mtime": ns, "atime": ns, "mode": int}
     Entries are created in list order; parents are created as needed. mtimes of files are set
     explicitly (default 2001-09-09 + index seconds) so that runs are reproducible."""
@@ -261,6 +277,20 @@ def make_tree(root, entries):
             mt = e.get("mtime", (1_000_000_000 + i) * 1_000_000_000)
             at = e.get("atime", mt)
             os.utime(p, ns=(at, mt))
+        elif k == "tmpfs":
+            # a fresh tmpfs instance mounted at this directory (inode numbers start over); unmounted by rmtree()
+            os.makedirs(p, exist_ok=True)
+            if subprocess.run(["mount", "-t", "tmpfs", "none", p], stdout=subprocess.DEVNULL, stderr=subprocess.DEVNULL).returncode != 0:
+                raise MachineryError("cannot mount a tmpfs at %r" % p)
+        elif k == "sparse":
+            # a file of e["len"] bytes with data only in the given segments [[offset, content spec], ...]: holes elsewhere
+            with open(p, "wb") as f:
+                for off, spec in e["segs"]:
+                    f.seek(off)
+                    f.write(content(spec))
+                f.truncate(e["len"])
+            mt = e.get("mtime", (1_000_000_000 + i) * 1_000_000_000)
+            os.utime(p, ns=(mt, mt))
         elif k == "hard":
             os.link(os.path.join(root, b(e["to"])), p)
         elif k == "sym":
